@@ -83,7 +83,8 @@ func routingKey(r *simhook.Rand) string {
 		return "}}{" + tag + "}" + b
 	case 12:
 		// every placement there is: short strings over a four-letter alphabet
-		k := make([]byte, 1+r.Intn(8))
+		// (the empty key included: a legal key, slot 0)
+		k := make([]byte, r.Intn(9))
 		for i := range k {
 			k[i] = "ab{}"[r.Intn(4)]
 		}
